@@ -1,7 +1,9 @@
 """C09 — list commands preserve order, multiplicity and length exactly.
 Model: lean/RedisGoModel/Exec/List.lean (+ Ds/ListOps.lean); theorems: Props/C09.lean; tie: exec engine (server.Manager.ExecCommand +
 VerifDump hook, whose list rendering checks forward walk = reverse of backward walk and both = Len)."""
-from .. import core, execgen_list, execsuite
+import random
+
+from .. import core, execgen_list, execsuite, families
 
 
 def run(R, ctx):
@@ -11,11 +13,11 @@ def run(R, ctx):
     execsuite.run_exec_suite(
         R, ctx, name="lists",
         gens=[(1, execgen_list.ListGen())],
-        nprog=(300, 5000), corpus="exec_c09", extra_lines=small,
+        nprog=(300, 5000), corpus="exec_c09", extra_lines=small + families.refused_changes_nothing(random.Random(R.seed * 31 + 9), 120 if R.tier == "quick" else 2000),
         what="list commands (LPUSH/RPUSH and X forms, LPOP/RPOP with and without count, LLEN, LINDEX, LRANGE, LSET, LREM, LTRIM, LPOS with "
              "RANK/COUNT/MAXLEN, LMOVE incl. source = destination, BLPOP/BRPOP served at once / nil at a 0.1-0.3 s timeout / invalid timeout) over "
              "values from three letters and the empty string, indexes and counts across both ends and at the int64 extremes, keys of other "
-             "types (SET), long and already-passed deadlines (EXPIRE), DEL/TYPE/TTL/EXISTS in between")
+             "types (SET), long and already-passed deadlines (EXPIRE), DEL/TYPE/TTL/EXISTS in between; refused-command scenarios followed by a full dump (a refused command changes nothing)")
 
 
 def replay(R, payload):
